@@ -46,6 +46,7 @@ type Event struct {
 	Task   string
 	Site   string
 	Detail string
+	Obj    int // identity of the object the event is about (first-seen order), 0 if none
 }
 
 // GInfo describes one goroutine of a snapshot.
@@ -112,6 +113,7 @@ type Sim struct {
 	starved   string
 
 	trace  []string
+	objs   map[any]int
 	events []Event
 	log    []string
 	buf    []byte
@@ -129,6 +131,8 @@ type Sim struct {
 
 var active atomic.Value // *Sim
 
+var debugSteps = os.Getenv("VSIM_DEBUG_CANDS") != ""
+
 func cur() *Sim {
 	v := active.Load()
 	if v == nil {
@@ -139,6 +143,7 @@ func cur() *Sim {
 
 func init() {
 	schema.VerifInstall(hookY, hookSpawn, hookEnter, hookExit, hookEv, hookPoll, hookOrder)
+	schema.VerifInstallEvP(hookEvP)
 }
 
 func goid() uint64 {
@@ -244,6 +249,9 @@ func (s *Sim) Step() int { return s.res.Steps }
 // Log appends a line to the harness log (part of the trace hash). It must be called by
 // the task the scheduler released, or outside Run.
 func (s *Sim) Log(line string) {
+	if debugSteps {
+		line = fmt.Sprintf("[step %d] %s", s.res.Steps, line)
+	}
 	if s.running {
 		id := goid()
 		s.mu.Lock()
@@ -354,6 +362,31 @@ func hookEv(site, detail string) {
 			s.res.Hazards = append(s.res.Hazards, "event from a goroutine that was not released: "+site)
 		}
 		s.events = append(s.events, Event{Step: s.res.Steps, Task: t.name, Site: site, Detail: detail})
+	}
+	s.mu.Unlock()
+}
+
+func hookEvP(site string, p any, detail string) {
+	s := cur()
+	if s == nil {
+		return
+	}
+	id := goid()
+	s.mu.Lock()
+	t := s.tasks[id]
+	if t != nil {
+		if s.current == nil || s.current.id != id {
+			s.res.Hazards = append(s.res.Hazards, "event from a goroutine that was not released: "+site)
+		}
+		if s.objs == nil {
+			s.objs = map[any]int{}
+		}
+		o, ok := s.objs[p]
+		if !ok {
+			o = len(s.objs) + 1
+			s.objs[p] = o
+		}
+		s.events = append(s.events, Event{Step: s.res.Steps, Task: t.name, Site: site, Detail: detail, Obj: o})
 	}
 	s.mu.Unlock()
 }
@@ -707,6 +740,13 @@ func (s *Sim) Run(maxSteps int) *Result {
 		s.lastName = t.name
 		s.res.Steps++
 		line := t.name + "@" + t.site
+		if s.KeepTrace && os.Getenv("VSIM_DEBUG_CANDS") != "" {
+			line += fmt.Sprintf(" [%d:", n)
+			for _, x := range c {
+				line += x.name + "@" + x.site + ","
+			}
+			line += t.name + "]"
+		}
 		h.Write([]byte(line))
 		h.Write([]byte{'\n'})
 		if n > 1 {
@@ -732,7 +772,7 @@ func (s *Sim) Run(maxSteps int) *Result {
 		s.res.Blocked = append(s.res.Blocked, g)
 	}
 	for _, e := range s.events {
-		fmt.Fprintf(h, "E%d|%s|%s|%s\n", e.Step, e.Task, e.Site, e.Detail)
+		fmt.Fprintf(h, "E%d|%s|%s|%s|%d\n", e.Step, e.Task, e.Site, e.Detail, e.Obj)
 	}
 	for _, l := range s.log {
 		h.Write([]byte(l))
